@@ -1,3 +1,10 @@
 #!/bin/sh
-# placeholder: replaced when the framework is in place
-exit 0
+# Builds the framework from files on disk only (offline): Lean project (model, driver, theorem
+# modules) and the Rust harness (both feature sets) against /repo's working tree.
+set -e
+cd "$(dirname "$0")"
+export CARGO_NET_OFFLINE=true
+(cd lean && lake build FnGraphVerif driver $(python3 -c "import json;print(' '.join(sorted({m for v in json.load(open('../theorems.json')).values() for m in v['modules']})))"))
+[ -f harness/Cargo.lock ] || cp /repo/Cargo.lock harness/Cargo.lock
+(cd harness && cargo build --offline --target-dir target && cargo build --offline --target-dir target-intr --features intr)
+echo setup-ok
